@@ -1,6 +1,7 @@
 """Property harnesses C09 (raster and text outputs depict the symbol with its quiet zone) and C11 (module iteration
 and per-type colouring)."""
 import time
+import random
 from concurrent.futures import ThreadPoolExecutor
 from core import *
 from raster import *
@@ -101,12 +102,69 @@ def known_c11(verdict, c):
     return 'D8' if verdict.split(' ')[0] == 'd8' else None
 
 
+def _render_call(spec, kw):
+    make, fmt = spec
+    c = RCase(0, segno.make(make['content'], **{k: v for k, v in make.items() if k != 'content'}), make, fmt, kw, 'concurrent')
+    execute(c)
+    if c.outcome != 'ok':
+        raise ValueError(c.outcome)
+    return c.data
+
+
+def _render_snap(x):
+    return x
+
+
+def _render_sequential(args):
+    out = []
+    for spec, kw in args:
+        try:
+            out.append(('ok', _render_call(spec, kw)))
+        except Exception as ex:  # noqa
+            out.append(('exc', str(ex)))
+    return out
+
+
+def concurrency_pass(cases, rnd, res, field):
+    """serialisers are pure functions of (symbol, options): the same calls under the deterministic scheduler (8 threads, one at a
+    time, seeded) — neighbouring calls of DIFFERENT symbol sizes, so that anything remembered from "the last symbol" is wrong for
+    the next — must give the documents of a sequential fresh process"""
+    import multiprocessing
+    import symbols
+    seed = int(os.environ.get('VERIF_SEED', '1'))
+    ok = [c for c in cases if c.outcome == 'ok' and len(c.q.matrix) <= 77]
+    rnd.shuffle(ok)
+    by_fmt = {}
+    for c in ok:
+        by_fmt.setdefault(c.fmt, []).append(c)
+    sample = []
+    for fmt, lst in sorted(by_fmt.items()):
+        sample += lst[:16 if fmt in ('png', 'ppm', 'svg', 'iterv') else 8]
+    sample = sample[: len(sample) - len(sample) % 8]
+    calls = [((c.make, c.fmt), c.kw) for c in sample]
+    ctx = multiprocessing.get_context('fork')
+    with ctx.Pool(1) as pool:
+        ref = pool.apply(_render_sequential, (calls,))
+    with ctx.Pool(1) as pool:
+        outs = pool.apply(symbols._scheduled_child, (calls, seed, 8, 0.1, _render_call, _render_snap))
+    for c, r, o in zip(sample, ref, outs):
+        res.evaluations += 1
+        if r[0] != 'ok':
+            continue
+        if o[0] != 'ok' or o[1] != r[1]:
+            what = ('raised-' + str(o[1])) if o[0] != 'ok' else 'document-differs'
+            res.violations.append(dict(property_field=field, verdict=f'under-concurrent-calls-{what}-sequential-call-gave-the-judged-document',
+                                       call=c.call() + '  [deterministic scheduler, 8 threads]', replay=dict(c.replay(), schedule=dict(seed=seed)), known_id=None))
+    res.count('concurrency-pass:scheduled-calls', len(calls))
+
+
 def run_C09(tier, rnd, st, res):
     syms = Sym(rnd)
     cases = gen_c09(rnd, syms, tier)
     judge_cases(cases, st, res, 'C09', known=lambda v, c: 'D8' if v == 'd8' and c.cmd == 'c11c' else None)
     # D8 (C11) shows in per-type coloured pictures as well; it is C11's finding, not a C09 violation
     res.violations = [v for v in res.violations if v.get('known_id') != 'D8']
+    concurrency_pass(cases, random.Random(rnd.random()), res, 'c09')
     from raster_model import correspond_c09, correspond_png
     correspond_c09(cases, st, res)
     correspond_png(cases, st, res, rnd, syms, tier)
@@ -129,6 +187,7 @@ def run_C11(tier, rnd, st, res):
     syms = Sym(rnd)
     cases = gen_c11(rnd, syms, tier)
     judge_cases(cases, st, res, 'C11', known=known_c11)
+    concurrency_pass(cases, random.Random(rnd.random()), res, 'c11')
     from raster_model import correspond_c11, correspond_png
     correspond_c11(cases, st, res)
     correspond_png(cases, st, res, rnd, syms, tier)
